@@ -17,7 +17,7 @@ import (
 func init() {
 	fw.Register(&fw.Check{Prop: "C14", Level: "exploration",
 		Assume: []string{
-			"routing oracle ref/mux: written from the property statement; for DS queries the statement pins the handler only when the question name itself is registered and at most one other pattern (the root pattern included) encloses it; elsewhere (several enclosing patterns, question name not a pattern) any enclosing pattern is accepted and the observed policy is counted",
+			"routing oracle ref/mux: written from the property statement; for DS queries: the closest registered pattern strictly above the question name (the parent side of the zone cut), the root pattern if that is the only one, the pattern equal to the question name if nothing encloses it",
 		},
 		Spaces: c14Spaces})
 }
@@ -142,24 +142,20 @@ func c14Route(r *fw.R, mask int, noDot bool) {
 					} else {
 						want = []string{""}
 					}
-				default: // DS
+				default: // DS: the record lives on the parent side of the zone cut at the question name
 					switch {
 					case len(cands) == 0 && !rootReg:
 						want = []string{""}
 					case len(cands) == 0:
 						want = []string{"."}
-					case selfReg && len(cands) == 2 && !rootReg:
-						want = []string{cands[1]} // the enclosing parent zone
-					case selfReg && len(cands) == 1 && !rootReg:
-						want = []string{cands[0]} // no parent registered: the child gets it
-					case selfReg && len(cands) == 1 && rootReg && !qIsRoot:
+					case !selfReg:
+						want = []string{cands[0]} // the question name is no registered zone: the closest zone above it holds the DS
+					case len(cands) >= 2:
+						want = []string{cands[1]} // the enclosing parent zone: the closest registered zone above the question name
+					case rootReg && !qIsRoot:
 						want = []string{"."} // the only registered zone that encloses the question name from above is the root
 					default:
-						pinned = false
-						want = append(want, cands...)
-						if rootReg {
-							want = append(want, ".")
-						}
+						want = []string{cands[0]} // no parent registered: the child gets it
 					}
 				}
 				ok := false
